@@ -33,7 +33,9 @@ META = {'title': 'Loading a well-formed SNA/SZX/SCR file yields exactly the desc
  'design_ref': 'DESIGN.md section 8, C14',
  'technique': 'Lean 4 proof: chunk-by-chunk simulation between the loader model (fuelled chunk walker) and the '
               'executable format spec (parse, then fold), for every byte string the spec accepts; parameterised by the '
-              'candidate repairs; tied to the code by differential correspondence on independently written files',
+              'candidate repairs; tied to the code by differential correspondence on independently written files, and '
+              'by a statement-by-statement translation of the chunk layouts of szx.rs (and the header layout of sna.rs) '
+              'into Lean on every run',
  'level_text': 'Refinement theorem in Lean 4 (szx_load_is_describe): for every well-formed zx-state file (any chunk '
                'order, unknown chunks, stored or compressed pages, missing pages) and every state of the receiving '
                'machine the repaired loader model yields exactly the abstract state the format spec describes, likewise '
@@ -42,7 +44,11 @@ META = {'title': 'Loading a well-formed SNA/SZX/SCR file yields exactly the desc
                'the code as it is each known defect is proved as a chunk-level counter-example. The model variant '
                'matching the tree under test is detected and tied to the Rust code on every run by a correspondence '
                'check (independent SZX/SNA/SCR writer in the harness, full state + devices compared) with the '
-               'executable spec adjudicating every disagreement.',
+               'executable spec adjudicating every disagreement; in addition the layouts of szx.rs (magic, machine '
+               'ids, chunk dispatch, every chunk byte each process_*_block function uses, flag bits, length and range '
+               'tests) and of sna.rs are translated from the source text on every run (tools/extract.py, tables '
+               'SzxLayout, SnaLayout) and proved to be the zx-state / SNA formats and exactly what the model decodes '
+               'with (Props/C14X).',
  'level_note': COMMON_NOTE + ' Partial: the whole-file refinement theorem is proved for the repaired loader '
                '(Fixes.all); for the unrepaired code the defects (lock leak, prefix/halt leak, HALTED PC, border '
                'device, AY generator, model mismatch) are proved as counter-examples per chunk / per load and the '
